@@ -61,6 +61,14 @@ def posLiq (b : Brk σ α) (s : σ) : Option α :=
     | none => none
   | none => none
 
+/-- `get_holdings_with_pending`: pointwise sum of the two maps over the union of their keys (no zero removal) -/
+def holdPend (b : Brk σ α) (s : σ) : Option α :=
+  match b.hold s, b.pend s with
+  | some h, some p => some (h + p)
+  | some h, none => some h
+  | none, some p => some p
+  | none, none => none
+
 def totalValue (b : Brk σ α) (ks : List σ) : α :=
   ks.foldl (fun acc k => match posValue b k with | some v => acc + v | none => acc) b.cash
 def liqValue (b : Brk σ α) (ks : List σ) : α :=
